@@ -93,6 +93,11 @@ type c12Alphabet struct {
 	// tags[:nTags] and kinds[:nKinds] are the alphabet of the single-event and pair parts; the entries behind them
 	// belong to the receive-path family (c12BuildRx) only
 	nTags, nKinds int
+	// counters[:nCounters], values[:nValues], hists[:nHists] are the alphabet of the full product; the entries behind
+	// them belong to the histogram-entry family (c12BuildHistFamily), which is enumerated as its own product
+	nCounters, nValues, nHists       int
+	famCounters, famValues, famHists []int
+	famUniques                       []int
 }
 
 var c12Storage = data_model.NewChunkedStorageNop()
@@ -189,7 +194,38 @@ func c12BuildAlphabet(thorough bool) *c12Alphabet {
 		a.kinds = append(a.kinds, c12Kind{name: "builtin-not-receivable", meta: format.BuiltinMetricByName[names[0]], builtin: true, metaLevel: true})
 	}
 	a.nTags, a.nKinds = len(a.tags), len(a.kinds)
+	a.nCounters, a.nValues, a.nHists = len(a.counters), len(a.values), len(a.hists)
+	c12BuildHistFamily(a)
 	return a
+}
+
+// c12BuildHistFamily: the histogram dimension of the quantifier, entry by entry. A histogram entry is a pair
+// (value, weight); the statement demands of BOTH that they are finite and within +/-MaxFloat32 (weights also
+// non-negative), for EVERY entry, whatever the other component is. Entry alphabet = every value class the
+// validation distinguishes x every weight class (in particular weight 0 and -0, which add nothing to count and
+// sum and therefore invite "harmless" short cuts), each entry alone, before and behind a valid entry, and twice
+// in a row; the histograms are combined with {no values, plain values} x {counter absent, explicitly 0, 2.5} x
+// {no uniques, uniques} below (TestVerifC12).
+func c12BuildHistFamily(a *c12Alphabet) {
+	big := 4e38
+	next := math.Nextafter(math.MaxFloat32, math.Inf(1))
+	vals := []float64{1, -3, 0, math.NaN(), math.Inf(1), math.Inf(-1), big, -big, 1e300, math.MaxFloat32, -math.MaxFloat32, next, -next}
+	weights := []float64{0, math.Copysign(0, -1), 2, 0.5, -1, math.NaN(), math.Inf(1), math.Inf(-1), big, math.MaxFloat32, next}
+	valid := [2]float64{2, 1}
+	for _, v := range vals {
+		for _, w := range weights {
+			e := [2]float64{v, w}
+			for _, h := range [][][2]float64{{e}, {e, valid}, {valid, e}, {e, e}} {
+				a.famHists = append(a.famHists, len(a.hists))
+				a.hists = append(a.hists, h)
+			}
+		}
+	}
+	a.famCounters = []int{0, len(a.counters), 2} // absent, present with value 0 (field mask set), 2.5
+	a.counters = append(a.counters, c12Float{"explicit-0", 0})
+	a.famValues = []int{0, 2, len(a.values)} // none, {1,3}, {0}
+	a.values = append(a.values, []float64{0})
+	a.famUniques = []int{0, 1}
 }
 
 // ---------------------------------------------------------------------------------------------------------
@@ -482,6 +518,18 @@ type c12Row struct {
 	set    bool
 	ts     uint32
 	bucket uint32
+	// some aggregate of the row (count, sum, sum of squares, min, max) is NaN or infinite: impossible when only
+	// events whose numbers are all finite and within +/-MaxFloat32 contribute
+	nonFinite bool
+}
+
+func c12NonFinite(v *data_model.ItemValue) bool {
+	for _, f := range []float64{v.Count(), v.ValueSum, v.ValueSumSquare, v.ValueMin, v.ValueMax} {
+		if math.IsNaN(f) || math.IsInf(f, 0) {
+			return true
+		}
+	}
+	return false
 }
 
 // c12Collect flushes the whole queue the way Agent.FlushAllData does and returns every row.
@@ -499,6 +547,7 @@ func c12Collect(a *Agent) []c12Row {
 					r.count += mv.Value.Count()
 					r.sum += mv.Value.ValueSum
 					r.set = r.set || mv.Value.ValueSet
+					r.nonFinite = r.nonFinite || c12NonFinite(&mv.Value)
 				}
 				add(&it.Tail)
 				for _, mv := range it.Top {
@@ -588,6 +637,7 @@ func c12Judge(alpha *c12Alphabet, evs []c12Event, kinds []*c12Kind, rows []c12Ro
 	errCount := 0.0
 	obsMetric := map[int32][]c12Row{}
 	perReason := map[int32]float64{}
+	nonFinite := ""
 	for _, r := range rows {
 		switch r.metric {
 		case c12StatusID, c12NoShardID:
@@ -602,9 +652,15 @@ func c12Judge(alpha *c12Alphabet, evs []c12Event, kinds []*c12Kind, rows []c12Ro
 			}
 		default:
 			obsMetric[r.metric] = append(obsMetric[r.metric], r)
+			if r.nonFinite && nonFinite == "" {
+				nonFinite = fmt.Sprintf("metric %d: the row has a NaN or infinite aggregate (count %v, sum %v) although only events whose counter, values and histogram entries are finite and within +/-MaxFloat32 may contribute", r.metric, r.count, r.sum)
+			}
 		}
 	}
 	if anyOpen {
+		if nonFinite != "" {
+			return "C12:non-finite-aggregate", nonFinite, ""
+		}
 		// open cases: only the generic accounting invariant, event by event, is decidable for single events
 		if len(evs) != 1 {
 			return "", "", "skip"
@@ -635,6 +691,9 @@ func c12Judge(alpha *c12Alphabet, evs []c12Event, kinds []*c12Kind, rows []c12Ro
 			return "C12:invalid-event-not-rejected", fmt.Sprintf("%d event(s) must be rejected (%s) but the error status records count %v; metric rows: %v", mustReject, c12Reasons(allReasons), errCount, got), ""
 		}
 		return "C12:valid-event-rejected", fmt.Sprintf("%d event(s) are invalid but the error status records count %v", mustReject, errCount), ""
+	}
+	if nonFinite != "" {
+		return "C12:non-finite-aggregate", nonFinite, ""
 	}
 	for code, c := range perReason {
 		if c > float64(perReasonMax[code]) {
@@ -698,10 +757,12 @@ func TestVerifC12(t *testing.T) {
 	rep := mc.NewReport("C12")
 	rep.Rule = "every combination of counter x values x uniques x histogram x tags x metric description (x timestamp form, x LegacyApplyValues where values exist) is sent alone to a fresh real agent through Agent.Map/ApplyMetric, the queue is flushed and all rows compared with the reference; then every ordered pair of a reduced event set is sent to one agent; then every sequence of 1, 2 (and 3 over a reduced set; thorough: all) receive-path events x every cut into TL packets x {overwritten by the next parse, overwritten completely after every packet} goes through ONE reused batch / receive buffer / scratch into one agent, all receiver-owned bytes are overwritten, and the bucket (rows and string-top entries with their strings) is compared with the merge of the buckets the events leave alone. A case is non-trivial when the event is rejected, or carries an explicit counter together with values/uniques/histogram, or the statement leaves its acceptance open; a receive-path sequence when at least one of its events leaves a string in the bucket."
 	alpha := c12BuildAlphabet(mc.Thorough())
-	rep.Bounds["counters"] = len(alpha.counters)
-	rep.Bounds["values"] = len(alpha.values)
+	rep.Bounds["counters"] = alpha.nCounters
+	rep.Bounds["values"] = alpha.nValues
 	rep.Bounds["uniques"] = len(alpha.uniques)
-	rep.Bounds["histograms"] = len(alpha.hists)
+	rep.Bounds["histograms"] = alpha.nHists
+	rep.Bounds["histogram_entry_family"] = fmt.Sprintf("%d histograms = {value in 1,-3,0,NaN,+Inf,-Inf,+-4e38,1e300,+-MaxFloat32,+-next after MaxFloat32} x {weight in 0,-0,2,0.5,-1,NaN,+Inf,-Inf,4e38,MaxFloat32,next after MaxFloat32} x {alone, before a valid entry, behind a valid entry, twice}; x %d counters (absent, explicitly 0, 2.5) x %d values (none, {1,3}, {0}) x %d uniques x plain/raw-tag/percentiles metric x LegacyApplyValues",
+		len(alpha.famHists), len(alpha.famCounters), len(alpha.famValues), len(alpha.famUniques))
 	rep.Bounds["tag_sets"] = alpha.nTags
 	rep.Bounds["metric_kinds"] = alpha.nKinds
 	rep.Assume("cmd/statshouse worker.HandleMetrics (fillTime, fillMetricMeta, Map|MapEnvironment, ApplyMetric) is mirrored by the harness with a one-entry metric table; disabled/unknown metrics get the status that fillMetricMeta assigns")
@@ -710,10 +771,10 @@ func TestVerifC12(t *testing.T) {
 
 	var singles []c12Single
 	for ki := 0; ki < alpha.nKinds; ki++ {
-		for c := range alpha.counters {
-			for v := range alpha.values {
+		for c := 0; c < alpha.nCounters; c++ {
+			for v := 0; v < alpha.nValues; v++ {
 				for u := range alpha.uniques {
-					for h := range alpha.hists {
+					for h := 0; h < alpha.nHists; h++ {
 						for tg := 0; tg < alpha.nTags; tg++ {
 							if alpha.kinds[ki].metaLevel && (h > 1 || !alpha.metaLevelTags[tg]) {
 								continue // tags and histogram are never looked at for these metrics: reduced grid
@@ -730,6 +791,27 @@ func TestVerifC12(t *testing.T) {
 			}
 		}
 	}
+	// histogram-entry family: every (value class, weight class) entry in every position, with and without plain
+	// values / explicit counter / uniques; the reference is the same accept/reject table (c12ValueReasons for the
+	// value and c12CounterReasons for the weight of EVERY entry)
+	nFamily := 0
+	for ki := 0; ki < alpha.nKinds; ki++ {
+		if alpha.kinds[ki].metaLevel {
+			continue
+		}
+		for _, c := range alpha.famCounters {
+			for _, v := range alpha.famValues {
+				for _, u := range alpha.famUniques {
+					for _, h := range alpha.famHists {
+						e := c12Event{counter: c, values: v, uniques: u, hist: h, tags: 0}
+						singles = append(singles, c12Single{e, ki, false}, c12Single{e, ki, true})
+						nFamily += 2
+					}
+				}
+			}
+		}
+	}
+	rep.Bounds["histogram_entry_family_cases"] = nFamily
 	// timestamp forms on a reduced grid
 	for ki := 0; ki < alpha.nKinds; ki++ {
 		for c := 0; c < 5; c++ {
@@ -756,6 +838,9 @@ func TestVerifC12(t *testing.T) {
 		if sig != "" {
 			d := alpha.describe(s.e, k, s.legacy)
 			d["rows"] = fmt.Sprintf("%+v", rows)
+			if s.e.hist >= alpha.nHists {
+				sig += ":histogram-entry" // found by the histogram-entry family
+			}
 			rep.Violate(sig, desc+fmt.Sprintf(" | event %v", d), d)
 			return
 		}
